@@ -27,7 +27,7 @@ def arc_points(rng):
 class C17(Property):
     id = "C17"
     lean_module = "RosuModel.Props.C17Full"   # imports Props/C17ArcEnd.lean (→ Props/C17Arc.lean, Props/C17Ends.lean, Props/C17.lean) and Props/C17ArcTol.lean; all in namespace Rosu.C17
-    theorem_modules = ['RosuModel.Props.C17ArcEnd', 'RosuModel.Props.C17ArcTol', 'RosuModel.Props.C17Bezier', 'RosuModel.Props.C17CatmullChord', 'RosuModel.Props.C17Catmull']   # files whose top-level theorems are all audited
+    theorem_modules = ['RosuModel.Props.C17ArcEnd', 'RosuModel.Props.C17ArcTol', 'RosuModel.Props.C17Bezier', 'RosuModel.Props.C17CatmullChord', 'RosuModel.Props.C17Catmull', 'RosuModel.Props.C17BezierCubic']   # files whose top-level theorems are all audited
     namespace = "Rosu.C17"
     design_ref = "5.17"
     level_text = (
@@ -70,7 +70,10 @@ class C17(Property):
         "compared with independently evaluated exact curves (De Casteljau, circle through three points, Catmull-Rom polynomial, polyline) "
         "in both directions with bounds derived from the constants 0.25 / 0.1 (arc: 0.4 for curve → path, the proved bound) / 50 steps, and the model is tied to the code bit-for-bit.")
     technique = "Lean 4 proof of the structural part and, over the reals, of the end-point and arc-tolerance clauses + bit-exact differential correspondence + independent exact-curve oracle (test)"
-    required_theorems = ["catmull_within_bound_real", "catmull_points_on_spline_real", "approximate_catmull_spans", "cubic_chord_error", "catmull_chord_within", "catmull_chord_error_sharp",
+    required_theorems = ["flatPiece_cubic", "cubicW1_sub_curve", "cubicW2_sub_curve", "comb_sq_le", "flat_cubic_second_differences", "flat_piece_cubic_within",
+                         "flat_piece_within_tolerance_cubic", "quarter_admissible", "bezier_cubic_within", "bezier_within_tolerance_cubic", "bezier_within_tolerance_quarter",
+                         "flat_piece_statement_iff_upto", "bezier_statement_iff_upto",
+                         "catmull_within_bound_real", "catmull_points_on_spline_real", "approximate_catmull_spans", "cubic_chord_error", "catmull_chord_within", "catmull_chord_error_sharp",
                          "linear_identity", "dispatch_bspline", "dispatch_perfect_not_three", "dispatch_perfect_three",
                          "arc_refused_collinear", "arc_refused_large", "arc_point_count", "segment_ends_at_last",
                          "piece_starts_at_first", "joint_dedup", "joint_dedup_first", "catmull_points_on_spline", "catmullRom_endpoints",
@@ -92,6 +95,13 @@ class C17(Property):
                          "arc_eps_branch_violates", "arcProps_real_range", "arc_piece_within", "arc_within_tolerance_real",
                          "halfCircle_accepted", "halfCircle_exceeds_tolerance"]
     partial_theorems = {
+        "bezier_within_tolerance_quarter / bezier_within_tolerance_cubic": "Props/C17BezierCubic.lean (sixth session, wave 8): the Bezier clause for control-point lists of AT MOST FOUR points (linear, quadratic, "
+            "cubic segments), exact arithmetic, any fuel on which the flattening succeeds, any scratch contents: every vertex approximate_bezier pushes is within BEZIER_TOLERANCE = 0.25 of a point of the "
+            "exact curve — in fact within 1/96 px (squared distance ≤ 1/9216). A flat cubic piece [a,b,c,d] pushes a, w1 = (9a+15b+7c+d)/32, w2 = (a+7b+15c+9d)/32 (flatPiece_cubic, by rfl); "
+            "w1 − B(1/3) = −(13/864)Δ1 − (5/864)Δ2 and symmetrically at 2/3 (cubicW*_sub_curve; at 1/4, 3/4 a first-difference term remains that flatness does not bound); the flatness test gives "
+            "|Δi|² ≤ 1/4; comb_sq_le (Cauchy–Schwarz in squared form) closes it; bezier_reduction lifts the piece statement to the whole subdivision. The bound to the chosen curve point is attained "
+            "(extremalCubic, kernel-evaluated on ℚ). PARTIAL: polygons of five or more control points stay open (flat_piece_within_tolerance_statement; the classical bound grows with the degree), and the "
+            "statement is exact-arithmetic (the IEEE side of the Bezier clause is tested)",
         "bezier_within_tolerance_statement": "NOT proved (stated as a def): Hausdorff bound of adaptive Bezier flattening + final smoothing; evidence = oracle with bound 0.5 (2 x BEZIER_TOLERANCE) + float slack, both directions",
         "arc_step_angle_bound / arc_within_tolerance_real (the arc tolerance clause; replaces the former unproved `arc_sagitta_bound`)":
             "now PROVED OVER THE REALS (Props/C17ArcTol.lean with the real instance of Lemmas/RealScalar.lean — sqrt = √, cos = Real.cos, acos = Real.arccos, ceil = ⌈·⌉ — and the real analysis of Lemmas/ArcSagitta.lean: "
